@@ -3,16 +3,13 @@
    every request relation, Properties/C01.v).  Consequences, for EVERY plugin order that contains the
    plugins the closure mentions, every prefix map and every request relation:
 
+     run_refines              the run is a run of Worklist.loop on the abstracted state;
      run_generates_closure    a successful run emits exactly the closure of the user's calls under
-                              [requests], each (plugin, class) exactly once;
-     run_canonical            the output is determined by its key list and ONE naming function
-                              N : (plugin, class) -> name, injective per plugin, N = the user's name on
-                              the user's calls, every name carrying its plugin's prefix: every record is
-                              [render N key] (its own name is N key, the helper names in its body are N
-                              of the requested keys);
-     run_succeeds             nothing but fuel makes a run fail: with a finite reserved set, newName
-                              fuel above |reserved| + |closure| and loop fuel above |closure| + 1 the run
-                              returns (any order, any prefix map);
+                              [requests], each (plugin, class) exactly once (Worklist.loop_complete);
+     run_order_independent    the set of emitted keys does not depend on the order, prefixes, reserved set.
+
+   (GenCanon.v: the names in the output; GenTotal.v: the run only fails for lack of fuel; GenFull.v: the
+   per-plugin theorem of C12.)
 
    The keys are (plugin id, class); the abstraction relates the merged, insertion-ordered work list of
    Worklist.v with the per-plugin tables by projection ([filter] on the plugin id). *)
